@@ -268,6 +268,9 @@ def rule_derived(ck, rid="C11.R5"):
             any(canon(a) in ("self._queue",) and t for a, t in facts_at(fl, r))
         ck.require(is_max and comp0, rid, glt, r.expr, ok="maximum over the timestamp component",
                    bad="get_last_timestamp must be the maximum of the timestamps (component 0)", sink="last-timestamp-max")
+        # max(..., default=None) answers None for an empty queue by itself (the documented result)
+        dflt = [k.value for k in c.keywords if k.arg == "default"]
+        guarded = guarded or (len(dflt) == 1 and isinstance(dflt[0], ast.Constant) and dflt[0].value is None and not isinstance(e, ast.Subscript))
         ck.require(guarded, rid, glt, r.expr, ok="only on the non-empty edge", bad="max() of an empty queue", sink="last-timestamp-guard")
 
 
